@@ -61,17 +61,19 @@ Notation exec := (exec_stmts P true).
 Lemma Inv_transfer (a b : ws cks) (x y : st) :
   seq_eqb a b = true -> Inv a x y -> Inv b x y.
 Proof.
-  unfold seq_eqb. intros E [Hc HR]. apply andb_prop in E as [E1 E2].
-  apply strict_eqb_SEq in E1. apply eqb_prop in E2.
-  split; [exact Hc|]. eapply InvR_transfer; [exact E1|exact E2|exact HR].
+  unfold seq_eqb. intros E (Hc & HR & HN). apply andb_prop in E as [E E3]. apply andb_prop in E as [E1 E2].
+  apply strict_eqb_SEq in E1. apply eqb_prop in E2. apply eqb_prop in E3.
+  split; [exact Hc|]. split; [eapply InvR_transfer; [exact E1|exact E2|exact HR]|].
+  rewrite <- E3. exact HN.
 Qed.
 
 Lemma Inv_transfer_back (a b : ws cks) (x y : st) :
   seq_eqb a b = true -> Inv b x y -> Inv a x y.
 Proof.
-  unfold seq_eqb. intros E [Hc HR]. apply andb_prop in E as [E1 E2].
-  apply strict_eqb_SEq in E1. apply eqb_prop in E2.
-  split; [exact Hc|]. eapply InvR_transfer; [apply SEq_sym; exact E1|symmetry; exact E2|exact HR].
+  unfold seq_eqb. intros E (Hc & HR & HN). apply andb_prop in E as [E E3]. apply andb_prop in E as [E1 E2].
+  apply strict_eqb_SEq in E1. apply eqb_prop in E2. apply eqb_prop in E3.
+  split; [exact Hc|]. split; [eapply InvR_transfer; [apply SEq_sym; exact E1|symmetry; exact E2|exact HR]|].
+  rewrite E3. exact HN.
 Qed.
 
 (* ---- member checks --------------------------------------------------------------- *)
@@ -81,25 +83,25 @@ Proof.
   destruct (if (r_nbits_new_refval (w_r sC) =? 0)%Z then None else is_plain_elem d) as [e|] eqn:Enr.
   { destruct (kind_of_unit (e_unit e)) eqn:Ek; [apply simc_at_err| |].
     - eapply simc_at_extI; [|apply new_refval_simc].
-      intros sI sE [_ HR]. unfold member_rest, member_rest_r. cbv zeta.
+      intros sI sE (_ & HR & _). unfold member_rest, member_rest_r. cbv zeta.
       rewrite (sa_nbits_new_refval _ _ _ _ HR), Enr, Ek. reflexivity.
     - eapply simc_at_extI; [|apply new_refval_simc].
-      intros sI sE [_ HR]. unfold member_rest, member_rest_r. cbv zeta.
+      intros sI sE (_ & HR & _). unfold member_rest, member_rest_r. cbv zeta.
       rewrite (sa_nbits_new_refval _ _ _ _ HR), Enr, Ek. reflexivity. }
   destruct (negb (r_nbits_skipped (w_r sC) =? 0)%Z) eqn:Esk.
   { eapply simc_at_extI.
-    2:{ apply (simc_at_post_upd P (set_nbits_skipped 0)); [|apply codeflag_simc].
+    2:{ apply (simc_at_post_upd P (set_nbits_skipped 0)); [keeps| |apply codeflag_simc].
         intros rC nd [HB HL]. split; [split; [exact HB|exact HL]|intros rI rE HR; invr_solve HR]. }
-    intros sI sE [_ HR]. unfold member_rest, member_rest_r. cbv zeta.
+    intros sI sE (_ & HR & _). unfold member_rest, member_rest_r. cbv zeta.
     rewrite (sa_nbits_new_refval _ _ _ _ HR), Enr, (sa_nbits_skipped _ _ _ _ HR), Esk. reflexivity. }
   destruct (negb (r_bm_state (w_r sC) =? BITMAP_NA)%N) eqn:Ebm.
   { eapply simc_at_extI.
     2:{ apply simc_at_bind; [apply bitmap_def_simc|exact Hn]. }
-    intros sI sE [_ HR]. unfold member_rest, member_rest_r. cbv zeta.
+    intros sI sE (_ & HR & _). unfold member_rest, member_rest_r. cbv zeta.
     rewrite (sa_nbits_new_refval _ _ _ _ HR), Enr, (sa_nbits_skipped _ _ _ _ HR), Esk,
             (sa_bm_state _ _ _ _ HR), Ebm. reflexivity. }
   eapply simc_at_extI; [|apply Hn].
-  intros sI sE [_ HR]. unfold member_rest, member_rest_r. cbv zeta.
+  intros sI sE (_ & HR & _). unfold member_rest, member_rest_r. cbv zeta.
   rewrite (sa_nbits_new_refval _ _ _ _ HR), Enr, (sa_nbits_skipped _ _ _ _ HR), Esk,
           (sa_bm_state _ _ _ _ HR), Ebm. reflexivity.
 Qed.
@@ -109,29 +111,29 @@ Proof.
   intros Hn sC. unfold member_step at 1. unfold member_step_r.
   destruct (r_dnp (w_r sC) =? 0)%Z eqn:Ed.
   { eapply simc_at_extI; [|apply member_rest_simc; exact Hn].
-    intros sI sE [_ HR]. unfold member_step, member_step_r. rewrite (sa_dnp _ _ _ _ HR), Ed. reflexivity. }
+    intros sI sE (_ & HR & _). unfold member_step, member_step_r. rewrite (sa_dnp _ _ _ _ HR), Ed. reflexivity. }
   destruct (dnp_skips d) eqn:Es.
   { eapply simc_at_extI.
-    2:{ apply (simc_at_upd P (fun r => set_dnp (r_dnp r - 1) r)). intros [HB HL].
+    2:{ apply (simc_at_upd P (fun r => set_dnp (r_dnp r - 1) r)); [keeps|]. intros [HB HL].
         split; [split; [exact HB|exact HL]|intros rI rE HR; invr_solve HR]. }
-    intros sI sE [_ HR]. unfold member_step, member_step_r. rewrite (sa_dnp _ _ _ _ HR), Ed, Es. reflexivity. }
+    intros sI sE (_ & HR & _). unfold member_step, member_step_r. rewrite (sa_dnp _ _ _ _ HR), Ed, Es. reflexivity. }
   eapply simc_at_extI.
   2:{ apply (simc_at_pre_upd P (fun r => set_dnp (r_dnp r - 1) r) sC (member_rest HC d nC) (member_rest H d nI));
-        [|apply member_rest_simc; exact Hn].
+        [keeps| |apply member_rest_simc; exact Hn].
       intros [HB HL]. split; [split; [exact HB|exact HL]|intros rI rE HR; invr_solve HR]. }
-  intros sI sE [_ HR]. unfold member_step, member_step_r. rewrite (sa_dnp _ _ _ _ HR), Ed, Es. reflexivity.
+  intros sI sE (_ & HR & _). unfold member_step, member_step_r. rewrite (sa_dnp _ _ _ _ HR), Ed, Es. reflexivity.
 Qed.
 
 (* ---- replication: the body is compiled once (or twice) and run n times ----------- *)
-Lemma chk_loop_core allow2 ln bodyC bodyI sC sC' :
-  simc bodyC bodyI -> chk_loop allow2 ln bodyC sC = Ok sC' -> StatInv (w_r sC) (ck_ndef (w_c sC)) ->
+Lemma chk_loop1_core allow2 ln bodyC bodyI sC sC' :
+  simc bodyC bodyI -> chk_loop1 allow2 ln bodyC sC = Ok sC' -> StatInv (w_r sC) (ck_ndef (w_c sC)) ->
   exists code1,
     ck_code (w_c sC') = stmts_app (ck_code (w_c sC)) (SCons (SLoop ln code1) SNil) /\
     StatInv (w_r sC') (ck_ndef (w_c sC')) /\
     forall n, (allow2 = true -> n <> 0%N) ->
       forall sI sE, Inv sC sI sE -> agree (Inv sC') (iter_res n bodyI sI) (iter_res n (exec code1) sE).
 Proof.
-  intros Hb E HS. unfold chk_loop in E.
+  intros Hb E HS. unfold chk_loop1 in E.
   destruct (bodyC (fresh sC)) as [s1|] eqn:E1; cbn [bind] in E; [|discriminate].
   destruct (Hb (fresh sC) s1 E1 HS) as (code1 & Ec1 & HS1 & A1). cbn [fresh w_c ck_code stmts_app] in Ec1.
   exists code1.
@@ -156,6 +158,23 @@ Proof.
   intros x y Hxy. apply agree_iter; [|exact Hxy].
   intros x' y' Hxy'. eapply agree_mono; [intros a b Hab; exact (Inv_transfer_back s1 s2 a b Es2 Hab)|].
   apply A2. exact Hxy'.
+Qed.
+
+Lemma chk_loop_core allow2 ln bodyC bodyI sC sC' :
+  simc bodyC bodyI -> chk_loop allow2 ln bodyC sC = Ok sC' -> StatInv (w_r sC) (ck_ndef (w_c sC)) ->
+  exists code1,
+    ck_code (w_c sC') = stmts_app (ck_code (w_c sC)) (SCons (SLoop ln code1) SNil) /\
+    StatInv (w_r sC') (ck_ndef (w_c sC')) /\
+    forall n, (allow2 = true -> n <> 0%N) ->
+      forall sI sE, Inv sC sI sE -> agree (Inv sC') (iter_res n bodyI sI) (iter_res n (exec code1) sE).
+Proof.
+  intros Hb E HS. unfold chk_loop in E.
+  destruct (bodyC (fresh sC)) as [s1|] eqn:E1; cbn [bind] in E; [|discriminate].
+  destruct (chk_loop1_core _ _ _ _ _ _ Hb E HS) as (code1 & Ec & HS' & A).
+  exists code1. split; [exact Ec|]. split; [exact HS'|].
+  intros n Hn sI sE (Hc & HR & HN). apply A; [exact Hn|].
+  split; [exact Hc|]. split; [exact HR|]. cbn [set_c33 w_c ck_c33]. intros X.
+  apply orb_false_elim in X as [X _]. exact (HN X).
 Qed.
 
 Lemma fixed_simc n bodyC bodyI : simc bodyC bodyI -> simc (h_fixed HC n bodyC) (h_fixed H n bodyI).
